@@ -2,7 +2,9 @@
 Line-protocol driver for the C14 model (graphs, trees and their queries).  Parsing glue only; every
 answer is computed by the definitions of `Core/C14Graph.lean` that the theorems are about.
 
-graph := K n m (i j w)*          K ∈ U | D, m stored entries (for U both orientations are listed)
+graph := K n m (i j w)*          K ∈ U | D, m stored entries (for U both orientations are listed); w an INTEGER of any
+                                 sign: the structural operations run on the graph of absolute values (same zero pattern,
+                                 `signed_structural_ops`), `mask` / `tmask` echo the signed entries, `sym` compares them
 onat  := number | N              (N = none: -9999 / inf / None)
 ops:
   basic G                 → ok edges=…;adj=…;iso=…;par=…;cyc=b;tree=b;treeold=b;sym=b
@@ -18,32 +20,41 @@ ops:
   mst G                   → ok weight count ncomp
   mste G                  → ok w:i-j,…                           (the edges the Kruskal reference chooses, in order)
   levels G r              → ok max=…;levels=…|…;counts=…;nleaves=… | err depth   (levels 0 … max+1)
+  api G r u v skip d      → ok ie=…;row=…;col=…;leaf=…;par=…;dep=…;vad=…;nvad=…;nch=…;npar=…   (the public entry points as coded,
+                             guards included: `Core/C14Src.lean`, proved equal to the translated source; X = ValueError)
 -/
 import MenpoModel.Core.Codec
 import MenpoModel.Core.C14Graph
 import MenpoModel.Core.C14Ext
 import MenpoModel.Core.C14Kruskal
+import MenpoModel.Core.C14Src
+import MenpoModel.Core.C14Signed
 
 namespace MenpoModel.Drive.C14
 open MenpoModel.Codec MenpoModel.C14
 
-def mkGraph (n : Nat) (ents : List (Nat × Nat × Nat)) : Graph :=
-  let empty : Array (Array Nat) := Array.replicate n (Array.replicate n 0)
-  let arr := ents.foldl (fun (a : Array (Array Nat)) e =>
+def mkSGraph (n : Nat) (ents : List (Nat × Nat × Int)) : SGraph :=
+  let empty : Array (Array Int) := Array.replicate n (Array.replicate n 0)
+  let arr := ents.foldl (fun (a : Array (Array Int)) e =>
     if e.1 < n ∧ e.2.1 < n then a.modify e.1 (fun r => r.set! e.2.1 e.2.2) else a) empty
   ⟨n, fun i j => (arr.getD i #[]).getD j 0⟩
 
-def pTriple : P (Nat × Nat × Nat) := do let i ← pNat; let j ← pNat; let w ← pNat; pure (i, j, w)
+def pTriple : P (Nat × Nat × Int) := do let i ← pNat; let j ← pNat; let w ← pInt; pure (i, j, w)
 def pPair : P (Nat × Nat) := do let i ← pNat; let j ← pNat; pure (i, j)
 
 def pKind : P Bool := do
   let t ← tok
   if t == "D" then pure true else if t == "U" then pure false else failure
 
-/-- (directed?, graph) -/
-def pGraph : P (Bool × Graph) := do
+/-- (directed?, signed graph) -/
+def pSGraph : P (Bool × SGraph) := do
   let k ← pKind; let n ← pNat; let ents ← pList pTriple
-  pure (k, mkGraph n ents)
+  pure (k, mkSGraph n ents)
+
+/-- (directed?, the graph of absolute values: what the structural operations read) -/
+def pGraph : P (Bool × Graph) := do
+  let (k, sg) ← pSGraph
+  pure (k, sg.abs)
 
 def pONat : P (Option Nat) := do
   let t ← tok
@@ -59,10 +70,16 @@ def fO (o : Option Nat) : String := match o with | none => "N" | some x => toStr
 def fOL (l : List (Option Nat)) : String := if l.isEmpty then "-" else ",".intercalate (l.map fO)
 def fB (b : Bool) : String := if b then "1" else "0"
 def fW (g : Graph) : String := fLL g.rows
+def fWI (g : SGraph) : String :=
+  "|".intercalate (g.rows.map fun r => if r.isEmpty then "-" else ",".intercalate (r.map toString))
 def fErr : Err → String
   | .maskLength => "err maskLength" | .empty => "err empty" | .rootRemoved => "err rootRemoved"
   | .isolated => "err isolated" | .notTree => "err notTree" | .badRoot => "err badRoot"
   | .bfsDiffers => "err bfsDiffers"
+
+def fX {α} (f : α → String) : Option α → String
+  | none => "X"
+  | some x => f x
 
 def contractOk (g : Graph) (s : Nat) (d pred : List (Option Nat)) : Bool :=
   d == g.dist s &&
@@ -75,21 +92,22 @@ def contractOk (g : Graph) (s : Nat) (d pred : List (Option Nat)) : Bool :=
 
 def step (toks : List String) : String :=
   match toks with
-  | "basic" :: rest => match runP pGraph rest with
+  | "basic" :: rest => match runP pSGraph rest with
     | none => "bad-op"
-    | some (k, g) =>
-      s!"ok edges={fE (g.edges k)};adj={fLL g.adjacencyList};iso={fL g.isolated};par={fLL ((List.range g.n).map g.parents)};cyc={fB (g.hasCycles k)};tree={fB (g.isTree k)};treeold={fB (g.isTreeCoded k)};sym={fB g.symmetricB}"
+    | some (k, sg) =>
+      let g := sg.abs
+      s!"ok edges={fE (g.edges k)};adj={fLL g.adjacencyList};iso={fL g.isolated};par={fLL ((List.range g.n).map g.parents)};cyc={fB (g.hasCycles k)};tree={fB (g.isTree k)};treeold={fB (g.isTreeCoded k)};sym={fB sg.symmetricB}"
   | "fe" :: rest => match runP (do let k ← pKind; let n ← pNat; let es ← pList pPair; pure (k, n, es)) rest with
     | none => "bad-op"
     | some (k, n, es) =>
       if !edgesInRange n es then "err range" else
       let g := if k then fromEdges n es else fromEdgesSym n es
       s!"ok edges={fE (g.edges k)};w={fW g}"
-  | "mask" :: rest => match runP (do let g ← pGraph; let m ← pList pBool; pure (g, m)) rest with
+  | "mask" :: rest => match runP (do let g ← pSGraph; let m ← pList pBool; pure (g, m)) rest with
     | none => "bad-op"
-    | some ((_, g), m) => match g.fromMask m with
+    | some ((_, sg), m) => match sg.abs.fromMask m with
       | .error e => fErr e
-      | .ok (g', keep) => s!"ok n={g'.n};keep={fL keep};w={fW g'}"
+      | .ok (g', keep) => s!"ok n={g'.n};keep={fL keep};w={fWI (sg.select keep)}"
   | "paths" :: rest => match runP (do let g ← pGraph; let s ← pNat; let t ← pNat; pure (g, s, t)) rest with
     | none => "bad-op"
     | some ((_, g), s, t) => s!"ok {fLL (g.allPaths s t)}"
@@ -103,11 +121,11 @@ def step (toks : List String) : String :=
     | some ((_, g), r, l) => match g.treeCtorCoded r l with
       | .error e => fErr e
       | .ok _ => "ok"
-  | "tmask" :: rest => match runP (do let g ← pGraph; let r ← pNat; let m ← pList pBool; pure (g, r, m)) rest with
+  | "tmask" :: rest => match runP (do let g ← pSGraph; let r ← pNat; let m ← pList pBool; pure (g, r, m)) rest with
     | none => "bad-op"
-    | some ((_, g), r, m) => match g.treeFromMask r m with
+    | some ((_, sg), r, m) => match sg.abs.treeFromMask r m with
       | .error e => fErr e
-      | .ok (g', r', keep) => s!"ok n={g'.n};root={r'};keep={fL keep};w={fW g'}"
+      | .ok (g', r', keep) => s!"ok n={g'.n};root={r'};keep={fL keep};w={fWI (sg.select keep)}"
   | "sp" :: rest => match runP (do
         let g ← pGraph; let s ← pNat; let t ← pNat; let d ← pList pONat; let p ← pList pONat
         pure (g, s, t, d, p)) rest with
@@ -139,6 +157,12 @@ def step (toks : List String) : String :=
       | some M =>
         let ks := List.range (M + 2)
         s!"ok max={M};levels={fLL (ks.map (g.verticesAtDepth r))};counts={fL (ks.map (g.nVerticesAtDepth r))};nleaves={g.nLeaves}"
+  | "api" :: rest => match runP (do
+        let g ← pGraph; let r ← pNat; let u ← pNat; let v ← pNat; let s ← pBool; let d ← pNat
+        pure (g, r, u, v, s, d)) rest with
+    | none => "bad-op"
+    | some ((_, g), r, u, v, s, d) =>
+      s!"ok ie={fX fB (g.isEdgeApi u v s)};row={fX fL (g.rowApi v s)};col={fX fL (g.colApi v s)};leaf={fX fB (g.isLeafApi v s)};par={fX fO (g.parentApi v s)};dep={fX toString (g.depthApi r v s)};vad={fX fL (g.verticesAtDepthApi r d)};nvad={fX toString (g.nVerticesAtDepthApi r d)};nch={fX toString ((g.rowApi v s).map List.length)};npar={fX toString ((g.colApi v s).map List.length)}"
   | _ => "bad-op"
 
 end MenpoModel.Drive.C14
